@@ -27,7 +27,10 @@ Ob(e) == [t |-> "obj", e |-> e]
 NLs(n) == [i \in 1..n |-> 10]
 
 ParseKinds == {"badobj", "badtag", "unknowntag", "strayend", "strayclause", "badif", "openif", "openraw", "opencomment"}
-RenderKinds == {"filtererr", "converr", "dateerr", "argerr", "nofilter", "strict", "nofile", "incarg", "ifcond", "forcoll", "casesubj", "assignerr", "whenerr", "captureinner"}
+\* (subfail: a tag registered by the embedding program whose work fails in ANOTHER template - it hands back that render's
+\* located error, wrapped; extfail: one that reports through Context.Errorf)
+RenderKinds == {"filtererr", "converr", "dateerr", "argerr", "nofilter", "strict", "nofile", "incarg", "ifcond", "forcoll", "casesubj", "assignerr", "whenerr", "captureinner",
+                "subfail", "extfail"}
 DivZero == [t |-> "filter", e |-> Lit(IntV(1)), name |-> "divided_by", args |-> <<Lit(IntV(0))>>]
 Bad(k) ==
   CASE k \in ParseKinds -> [t |-> k]
@@ -38,6 +41,8 @@ Bad(k) ==
     [] k = "argerr" -> Ob([t |-> "filter", e |-> Lit(IntV(1)), name |-> "plus", args |-> <<Lit(Str(<<113>>))>>])
     [] k = "nofilter" -> Ob([t |-> "filter", e |-> Lit(IntV(1)), name |-> "nosuchfilter", args |-> <<>>])
     [] k = "strict" -> Ob(Var(<<117, 110, 100, 101, 102>>))
+    [] k = "subfail" -> [t |-> "xsub"]
+    [] k = "extfail" -> [t |-> "xfail"]
     [] k = "nofile" -> [t |-> "include", e |-> Lit(Str(<<110, 111, 102, 105, 108, 101>>))]
     [] k = "incarg" -> [t |-> "include", e |-> Lit(IntV(5))]
     \* the failing expression belongs to a block tag, an assign, a when clause on the tag's own line
@@ -48,7 +53,7 @@ Bad(k) ==
     [] k = "whenerr" -> [t |-> "case", e |-> Lit(IntV(1)), pre |-> <<>>, whens |-> <<[vals |-> <<[t |-> "filter", e |-> Lit(IntV(1)), name |-> "nosuchfilter", args |-> <<>>]>>, body |-> <<T(<<113>>)>>]>>]
     [] k = "captureinner" -> [t |-> "capture", name |-> <<113>>, body |-> <<T(<<10>>), Ob(DivZero)>>]
 Mention(k) == CASE k = "filtererr" -> "divided_by" [] k = "nofilter" -> "nosuchfilter" [] k = "unknowntag" -> "nosuchtag" [] OTHER -> ""
-HasCause(k) == k \in {"filtererr", "converr", "dateerr", "argerr", "ifcond", "forcoll", "casesubj", "assignerr", "captureinner"}
+HasCause(k) == k \in {"filtererr", "converr", "dateerr", "argerr", "ifcond", "forcoll", "casesubj", "assignerr", "captureinner", "subfail"}
 
 Wrappers == {"if", "for", "case", "capture", "unless"}
 RECURSIVE Shapes(_)
